@@ -180,8 +180,31 @@ type Stamp = BTreeMap<String, (Vec<u8>, u64)>;
 struct PlanCase { sr: PathBuf, dr: PathBuf, flags: Vec<&'static str>, s0: Stamp, d0: Stamp, want: Stamp }
 fn stamp_of(r: &Path) -> Stamp { tree(r).into_iter().map(|(p, b)| { let m = std::fs::metadata(r.join(&p)).and_then(|m| m.modified()).ok().and_then(|t| t.duration_since(std::time::UNIX_EPOCH).ok()).map(|d| d.as_secs()).unwrap_or(0); (p, (b, m)) }).collect() }
 /// the C04 tree (awkward names, four destination states, sibling names, stale files) and the plan the property gives for it
-fn plan_case(env: &Env, fi: usize) -> Option<PlanCase> {
+fn plan_case(env: &Env, fi: usize) -> Option<PlanCase> { plan_case_v(env, fi, 0) }
+/// variant 0: the tree above. variant 1: an EMPTY source (the directory exists, no file in it) against a populated destination.
+/// variant 2: a path that is a regular file in the source and a non-empty DIRECTORY at the destination.
+fn plan_case_v(env: &Env, fi: usize, variant: usize) -> Option<PlanCase> {
     let (sr, dr) = (env.dir.join("src"), env.dir.join("dst"));
+    if variant != 0 {
+        let t0 = 1_650_000_000u64;
+        let wr = |root: &Path, rel: &str, c: &[u8], secs: u64| -> Option<()> { let f = root.join(rel); std::fs::create_dir_all(f.parent()?).ok()?; std::fs::write(&f, c).ok()?; std::fs::File::options().write(true).open(&f).ok()?.set_modified(std::time::UNIX_EPOCH + std::time::Duration::new(secs, 0)).ok() };
+        std::fs::create_dir_all(&sr).ok()?; std::fs::create_dir_all(&dr).ok()?;
+        if variant == 1 {
+            for (i, n) in ["old.txt", "sub/stale.bin", "keep.log", "sub dir/x"].iter().enumerate() { wr(&dr, n, format!("destination only {i}").as_bytes(), t0 - 100)?; }
+        } else {
+            wr(&sr, "clash", b"a regular file in the source", t0)?; wr(&sr, "plain.txt", b"plain", t0 + 1)?;
+            wr(&dr, "clash/inner.log", b"inside the directory", t0 - 5)?; wr(&dr, "clash/sub/data.bin", b"deeper", t0 - 6)?; wr(&dr, "other.txt", b"other", t0 - 7)?;
+        }
+        let flags = flag_sets()[fi.min(flag_sets().len() - 1)].clone();
+        let excludes: Vec<String> = flags.iter().enumerate().filter(|(i, _)| *i > 0 && flags[i - 1] == "--exclude").map(|(_, x)| x.to_string()).collect();
+        let delete = flags.contains(&"--delete");
+        let (s0, d0) = (stamp_of(&sr), stamp_of(&dr));
+        let ex = |p: &str| crate::plan::is_excluded(Path::new(p), &excludes);
+        let mut want = d0.clone();
+        for (p, (b, m)) in &s0 { if ex(p) { continue; } let send = match d0.get(p) { None => true, Some((b2, m2)) => b2.len() != b.len() || m2 != m }; if send { want.insert(p.clone(), (b.clone(), *m)); } }
+        if delete { for p in d0.keys() { if !s0.contains_key(p) && !ex(p) { want.remove(p); } } }
+        return Some(PlanCase { sr, dr, flags, s0, d0, want });
+    }
     let t0 = 1_650_000_000u64;
     // every mtime ends just before the next second (.999999999): whole-second truncation must not round it up
     let wr = |root: &Path, rel: &str, c: &[u8], secs: u64| -> Option<()> { let f = root.join(rel); std::fs::create_dir_all(f.parent()?).ok()?; std::fs::write(&f, c).ok()?; std::fs::File::options().write(true).open(&f).ok()?.set_modified(std::time::UNIX_EPOCH + std::time::Duration::new(secs, 999_999_999)).ok() };
@@ -218,9 +241,10 @@ fn dirs_of(r: &Path) -> Vec<String> {
 /// C15: `sync -r --dry-run` changes no file, no mtime, no directory on either side, and prints exactly the planned actions:
 /// every path a real run from this state sends or deletes is named on a line of its own, no other path of either tree is.
 /// (Format-agnostic: a path counts as printed if stdout holds `<blank><path><newline>`.)
-pub fn dry_run_is_inert(dir: &str, fi: usize) -> Option<String> {
-    let env = Env::new(&format!("dry{dir}{fi}"))?;
-    let pc = plan_case(&env, fi)?;
+pub fn dry_run_is_inert(dir: &str, fi: usize) -> Option<String> { dry_run_is_inert_v(dir, fi, 0) }
+pub fn dry_run_is_inert_v(dir: &str, fi: usize, variant: usize) -> Option<String> {
+    let env = Env::new(&format!("dry{dir}{fi}v{variant}"))?;
+    let pc = plan_case_v(&env, fi, variant)?;
     let (sr, dr, flags) = (&pc.sr, &pc.dr, &pc.flags);
     let (dirs_s, dirs_d) = (dirs_of(sr), dirs_of(dr));
     let cwd = env.dir.join("cwd"); std::fs::create_dir_all(&cwd).ok()?; std::fs::write(cwd.join("line"), b"bystander").ok()?;
@@ -230,7 +254,7 @@ pub fn dry_run_is_inert(dir: &str, fi: usize) -> Option<String> {
     let (ss, ds) = (sr.to_string_lossy().into_owned(), dr.to_string_lossy().into_owned());
     match dir { "pull" => { args.push(format!("fakehost:{ss}")); args.push(ds); } "push" => { args.push(ss); args.push(format!("fakehost:{ds}")); } _ => { args.push(ss); args.push(ds); } }
     let out = Command::new(b).args(&args).current_dir(&cwd).env("PATH", env.path_env()).env("RUST_BACKTRACE", "0").output().ok()?;
-    let tag = format!("[{dir} --dry-run, flags {flags:?}]");
+    let tag = format!("[{dir} --dry-run, flags {flags:?}{}]", ["", ", EMPTY source", ", a source file where the destination has a directory"][variant.min(2)]);
     let shown = |p: &str| p.replace('\\', "/BACKSLASH/").replace('\n', "<LF>").replace('\t', "<TAB>");
     let (s1, d1) = (stamp_of(sr), stamp_of(dr));
     if s1 != pc.s0 { return Some(format!("{tag} the source tree was modified (C15)")); }
@@ -255,17 +279,22 @@ pub fn dry_search(as_twin: bool) -> i32 {
         cases += 1;
         if let Some(what) = dry_run_is_inert(dir, fi) { println!("WITNESS {{\"kind\":\"oneway-dry\",\"dir\":{di},\"flags\":{fi},\"what\":\"{}\"}}", what.replace('"', "'").replace('\n', " ")); }
     } }
+    for (di, dir) in DIRS.iter().enumerate() { for (variant, fi) in [(1usize, 0usize), (1, 1), (1, 2), (2, 0), (2, 3)] {
+        cases += 1;
+        if let Some(what) = dry_run_is_inert_v(dir, fi, variant) { println!("WITNESS {{\"kind\":\"oneway-dry\",\"dir\":{di},\"flags\":{fi},\"variant\":{variant},\"what\":\"{}\"}}", what.replace('"', "'").replace('\n', " ")); }
+    } }
     if as_twin { println!("CASES {cases}"); }
     0
 }
 pub fn run_dry(w: &str) -> i32 {
     let dir = DIRS[(json_u64(w, "dir").unwrap_or(0) as usize).min(2)]; let fi = json_u64(w, "flags").unwrap_or(0) as usize;
-    match dry_run_is_inert(dir, fi) { Some(what) => { println!("REPRODUCED: {what}"); 1 } None => { println!("not reproduced: direction {dir}, flag set {fi}: the dry run changes nothing and prints exactly the plan"); 0 } }
+    match dry_run_is_inert_v(dir, fi, json_u64(w, "variant").unwrap_or(0) as usize) { Some(what) => { println!("REPRODUCED: {what}"); 1 } None => { println!("not reproduced: direction {dir}, flag set {fi}: the dry run changes nothing and prints exactly the plan"); 0 } }
 }
 /// one direction, one flag set; None = the destination is exactly what the plan says
-pub fn delivers_plan(dir: &str, fi: usize) -> Option<String> {
-    let env = Env::new(&format!("plan{dir}{fi}"))?;
-    let pc = plan_case(&env, fi)?;
+pub fn delivers_plan(dir: &str, fi: usize) -> Option<String> { delivers_plan_v(dir, fi, 0) }
+pub fn delivers_plan_v(dir: &str, fi: usize, variant: usize) -> Option<String> {
+    let env = Env::new(&format!("plan{dir}{fi}v{variant}"))?;
+    let pc = plan_case_v(&env, fi, variant)?;
     let (sr, dr, flags, s0, d0, want) = (pc.sr.clone(), pc.dr.clone(), pc.flags.clone(), pc.s0.clone(), pc.d0.clone(), pc.want.clone());
     let stamp = |r: &Path| stamp_of(r);
     // run it, from a working directory that holds an innocent bystander
@@ -277,7 +306,7 @@ pub fn delivers_plan(dir: &str, fi: usize) -> Option<String> {
     let (ss, ds) = (sr.to_string_lossy().into_owned(), dr.to_string_lossy().into_owned());
     match dir { "pull" => { args.push(format!("fakehost:{ss}")); args.push(ds); } "push" => { args.push(ss); args.push(format!("fakehost:{ds}")); } _ => { args.push(ss); args.push(ds); } }
     let out = Command::new(b).args(&args).current_dir(&cwd).env("PATH", env.path_env()).env("RUST_BACKTRACE", "0").output().ok()?;
-    let tag = format!("[{dir}, flags {flags:?}]");
+    let tag = format!("[{dir}, flags {flags:?}{}]", ["", ", EMPTY source", ", a source file where the destination has a directory"][variant.min(2)]);
     let shown = |p: &str| p.replace('\\', "/BACKSLASH/").replace('\n', "<LF>").replace('\t', "<TAB>").replace('\0', "<NUL>");
     let (s1, d1) = (stamp(&sr), stamp(&dr));
     if s1 != s0 { return Some(format!("{tag} the source tree was modified (C04)")); }
@@ -318,12 +347,17 @@ pub fn plan_search(as_twin: bool) -> i32 {
         cases += 1;
         if let Some(what) = delivers_plan(dir, fi) { println!("WITNESS {{\"kind\":\"oneway-plan\",\"dir\":{di},\"flags\":{fi},\"what\":\"{}\"}}", what.replace('"', "'").replace('\n', " ")); }
     } }
+    // an empty source (flag sets: none, --delete, --delete --exclude '*.log') and a file-vs-directory clash (none, --exclude 'sub dir')
+    for (di, dir) in DIRS.iter().enumerate() { for (variant, fi) in [(1usize, 0usize), (1, 1), (1, 2), (2, 0), (2, 3)] {
+        cases += 1;
+        if let Some(what) = delivers_plan_v(dir, fi, variant) { println!("WITNESS {{\"kind\":\"oneway-plan\",\"dir\":{di},\"flags\":{fi},\"variant\":{variant},\"what\":\"{}\"}}", what.replace('"', "'").replace('\n', " ")); }
+    } }
     if as_twin { println!("CASES {cases}"); }
     0
 }
 pub fn run_plan(w: &str) -> i32 {
     let dir = DIRS[(json_u64(w, "dir").unwrap_or(0) as usize).min(2)]; let fi = json_u64(w, "flags").unwrap_or(0) as usize;
-    match delivers_plan(dir, fi) { Some(what) => { println!("REPRODUCED: {what}"); 1 } None => { println!("not reproduced: direction {dir}, flag set {fi}: the destination is exactly the plan"); 0 } }
+    match delivers_plan_v(dir, fi, json_u64(w, "variant").unwrap_or(0) as usize) { Some(what) => { println!("REPRODUCED: {what}"); 1 } None => { println!("not reproduced: direction {dir}, flag set {fi}: the destination is exactly the plan"); 0 } }
 }
 
 /// C14: right after a successful run, the same command again transfers nothing and changes nothing (bytes and whole-second
